@@ -120,7 +120,9 @@ func RunFailover(opt FailoverOptions) *StressResult {
 		}
 		mgr, err := controllermanager.NewControllerManager(c, configv1alpha1.ControllerManagerConfigSpec{LeaderElection: &configv1alpha1.LeaderElectionSpec{
 			Enabled: pointer.Bool(true), LeaseName: "furiko-verif", LeaseNamespace: "furiko-system",
-			LeaseDuration: metav1.Duration{Duration: 1500 * time.Millisecond}, RenewDeadline: metav1.Duration{Duration: 1000 * time.Millisecond}, RetryPeriod: metav1.Duration{Duration: 100 * time.Millisecond},
+			// generous lease timings: a leader can only lose its lease by not renewing it for 8 s, takeovers below do not
+			// depend on them (the lease is released when the leader's context ends)
+			LeaseDuration: metav1.Duration{Duration: 10 * time.Second}, RenewDeadline: metav1.Duration{Duration: 8 * time.Second}, RetryPeriod: metav1.Duration{Duration: 200 * time.Millisecond},
 		}}, "furiko-verif")
 		if err != nil {
 			return nil, err
@@ -260,7 +262,8 @@ func RunFailover(opt FailoverOptions) *StressResult {
 		time.Sleep(opt.Phase * 4 / 5)
 		select {
 		case <-standby.led:
-			res.Notes = append(res.Notes, fmt.Sprintf("standby %s started leading while %s was leading", standby.actor, leader.actor))
+			res.Viol = append(res.Viol, Violation{Prop: "C05", Sig: "two-leaders", Msg: fmt.Sprintf("standby %s was elected and started its stores and controllers while %s, which had not been stopped, was still running its own: two processes admit Jobs with separate counters", standby.actor, leader.actor)})
+			res.Notes = append(res.Notes, "two leaders at once: run abandoned")
 			ok = false
 		default:
 		}
